@@ -218,7 +218,8 @@ class Inference(Serializable):
             if coal.lineage_counting_state_space == self._lineage_counting_state_space:
                 coal.__dict__['lineage_counting_state_space'] = self._lineage_counting_state_space
 
-            if coal.block_counting_state_space == self._block_counting_state_space:
+            # the block-counting state space only exists for a single locus
+            if coal.locus_config.n == 1 and coal.block_counting_state_space == self._block_counting_state_space:
                 coal.__dict__['block_counting_state_space'] = self._block_counting_state_space
 
         return coal
